@@ -476,6 +476,9 @@ class _Frame:
                 env[name] = self._eval_default(dflt)
             elif dflt is not None and symbolic_missing:
                 env[name] = param(name)
+                if isinstance(dflt, (ast.Dict, ast.List, ast.Set)):
+                    # a mutable default is one object shared by every call
+                    env[name] = T("default", (name, self._eval_default(dflt)))
             else:
                 env[name] = param(name)
         if a.vararg:
@@ -607,6 +610,25 @@ class _Frame:
         key = self.I.fresh()
         self.I.lambdas[key] = (s, dict(st.env), self.mod, self.self_cls, "def")
         st.env[s.name] = T("lambda", (key,))
+        # interpret the nested function's body once with symbolic parameters so that its effects, partial
+        # operations and calls are part of the record (it may be called later, any number of times)
+        if self.depth < self.I.inline_depth and id(s) not in self.stack:
+            fr = _Frame(self.I, self.mod, s, self.self_cls, self.rec, f"{self.qualname}.<locals>.{s.name}", self.depth + 1,
+                        self.stack + (id(s),), base_pc=st.pc, base_loops=self.loops, base_trys=self.trys)
+            inner = fr.bind_params({}, symbolic_missing=True)
+            merged = dict(st.env)
+            merged.update(inner.env)
+            inner.env = merged
+            # defaults are evaluated once, at definition: bind them so that mutations of a default are visible
+            a = s.args
+            params = [p_.arg for p_ in a.posonlyargs + a.args]
+            for name, d in zip(params[len(params) - len(a.defaults):], a.defaults):
+                dv = self.eval(d, st)
+                if dv.op in ("dict", "list", "set"):
+                    inner.env[name] = T("default", (name, dv))
+            saved_returns = len(self.rec.returns)
+            fr.exec_block(s.body, inner)
+            del self.rec.returns[saved_returns:]
         return st
 
     def s_ClassDef(self, s, st):
